@@ -147,10 +147,11 @@ theorem deltaChunks_ok_of_small (tick base crc : Int) (bs : List UInt8) (h : bs.
 packed delta exceeds the buffer. -/
 theorem sendSnap_concrete {objSize : Nat → Option Nat} {size : TypeId → Nat → Nat} (ht : TableOk objSize size)
     (st : Storage Tw.Snap.Snap) (tick : Int) (T : Tw.Snap.Snap)
-    (hbase : Anc size (st.baseOf (execOps objSize) ({ tick := tick, snap := T } :: st.snaps)) T) :
-    (∃ x ms, sendSnap (execOps objSize) st tick T
+    (ref : Bool)
+    (hbase : Anc size (st.baseOf (execOps objSize ref) ({ tick := tick, snap := T } :: st.snaps)) T) :
+    (∃ x ms, sendSnap (execOps objSize ref) st tick T
         = .ok ({ st with snaps := { tick := tick, snap := T } :: st.snaps }, x, ms)) ∨
-    ((∃ s, sendSnap (execOps objSize) st tick T = .panic s) ∧ Oversize objSize) := by
+    ((∃ s, sendSnap (execOps objSize ref) st tick T = .panic s) ∧ Oversize objSize) := by
   obtain ⟨a, b, h0, h1, ha, hb⟩ := hbase
   obtain ⟨_, d, hd⟩ := chain_create h0 h1
   rw [ha, hb] at hd
@@ -160,24 +161,31 @@ theorem sendSnap_concrete {objSize : Nat → Option Nat} {size : TypeId → Nat 
   have hsz : SizesOk objSize d.updated :=
     sizesOk_of_lens objSize hwf.2 (hb ▸ sizesOk_of_sized ht hbs)
   obtain ⟨xs, hxs, _⟩ := readDelta_writeInts true objSize hwf.1 hsz
-  have hcreate : (execOps objSize).create
-      (st.baseOf (execOps objSize) ({ tick := tick, snap := T } :: st.snaps)) T = some d := hd
+  have hcreate : (execOps objSize ref).create
+      (st.baseOf (execOps objSize ref) ({ tick := tick, snap := T } :: st.snaps)) T = some d := hd
+  by_cases hcond : ((execOps objSize ref).emptyWhenSame &&
+      (execOps objSize ref).same (st.baseOf (execOps objSize ref) ({ tick := tick, snap := T } :: st.snaps)) T) = true
+  · -- "same as base": nothing is written
+    left
+    obtain ⟨ms, hms⟩ := deltaChunks_ok_of_small tick (st.deltaTick.getD (-1)) ((execOps objSize ref).crc T)
+      [] (by simp)
+    exact ⟨{ tick := tick, base := st.deltaTick.getD (-1), bytes := [],
+             crc := (execOps objSize ref).crc T }, ms,
+      by simp only [sendSnap, Storage.addSnap, hcreate, if_pos hcond, hms]⟩
   by_cases hbig : (packInts xs).length > writeCapacity
   · right
     refine ⟨⟨"with_packer(..).unwrap()", ?_⟩, _, _, d, xs, hd, hxs, hbig⟩
-    simp only [sendSnap, Storage.addSnap, hcreate]
-    simp [execOps, hxs, hbig]
+    have hw : (execOps objSize ref).write d = none := by simp [execOps, hxs, hbig]
+    simp only [sendSnap, Storage.addSnap, hcreate, if_neg hcond, hw]
   · left
-    have hw : (execOps objSize).write d = some (packInts xs) := by
+    have hw : (execOps objSize ref).write d = some (packInts xs) := by
       simp only [execOps, hxs, hbig, if_false]
     rw [writeCapacity_eq] at hbig
-    obtain ⟨ms, hms⟩ := deltaChunks_ok_of_small tick (st.deltaTick.getD (-1)) ((execOps objSize).crc T)
+    obtain ⟨ms, hms⟩ := deltaChunks_ok_of_small tick (st.deltaTick.getD (-1)) ((execOps objSize ref).crc T)
       (packInts xs) (by omega)
     exact ⟨{ tick := tick, base := st.deltaTick.getD (-1), bytes := packInts xs,
-             crc := (execOps objSize).crc T }, ms,
-      by
-        have hglue : (execOps objSize).emptyWhenSame = false := rfl
-        simp only [sendSnap, Storage.addSnap, hcreate, hglue, Bool.false_and, Bool.false_eq_true, if_false, hw, hms]⟩
+             crc := (execOps objSize ref).crc T }, ms,
+      by simp only [sendSnap, Storage.addSnap, hcreate, if_neg hcond, hw, hms]⟩
 
 /-- every snapshot on the free list was made on the builder chain, and every stored snapshot is an
 ancestor of the newest stored one -/
@@ -259,9 +267,10 @@ theorem seed_built {size : TypeId → Nat → Nat} {y : SysB Tw.Snap.Snap} (hinv
 /-- One event under the application-level hypotheses: it runs and keeps the invariant, or the
 glue's buffer overflows. -/
 theorem stepB_no_panic {objSize : Nat → Option Nat} {size : TypeId → Nat → Nat} (ht : TableOk objSize size)
+    (ref : Bool)
     {y : SysB Tw.Snap.Snap} (hinv : InvB size y) (e : EvB Tw.Snap.Snap (List Item)) (he : EvOk size e) :
-    (∃ y' o, y.step (execOps objSize) execBuild e = .ok (y', o) ∧ InvB size y') ∨
-    ((∃ s, y.step (execOps objSize) execBuild e = .panic s) ∧ Oversize objSize) := by
+    (∃ y' o, y.step (execOps objSize ref) execBuild e = .ok (y', o) ∧ InvB size y') ∨
+    ((∃ s, y.step (execOps objSize ref) execBuild e = .panic s) ∧ Oversize objSize) := by
   cases e with
   | sendItems tick items =>
     have hseed := seed_built hinv
@@ -291,7 +300,7 @@ theorem stepB_no_panic {objSize : Nat → Option Nat} {size : TypeId → Nat →
           subst hr'
           obtain ⟨c, hc, hcT⟩ := hrc' T rfl
           exact ⟨a, c, ha0, chain_trans hab hc, has, hcT⟩
-      have hbase : Anc size (y.sys.sender.baseOf (execOps objSize)
+      have hbase : Anc size (y.sys.sender.baseOf (execOps objSize ref)
           ({ tick := tick, snap := T } :: y.sys.sender.snaps)) T := by
         unfold Storage.baseOf
         cases y.sys.sender.deltaTick with
@@ -304,7 +313,7 @@ theorem stepB_no_panic {objSize : Nat → Option Nat} {size : TypeId → Nat →
             rcases List.mem_cons.mp (List.mem_of_getLast? hl) with rfl | hd
             · exact hbuiltT.anc_self
             · exact hanc d hd
-      rcases sendSnap_concrete ht y.sys.sender tick T hbase with ⟨x, ms, hsend⟩ | ⟨⟨s, hp⟩, hover⟩
+      rcases sendSnap_concrete ht y.sys.sender tick T ref hbase with ⟨x, ms, hsend⟩ | ⟨⟨s, hp⟩, hover⟩
       · left
         refine ⟨{ sys := { y.sys with
                     sender := { y.sys.sender with snaps := { tick := tick, snap := T } :: y.sys.sender.snaps },
@@ -356,20 +365,130 @@ theorem stepB_no_panic {objSize : Nat → Option Nat} {size : TypeId → Nat →
         · exact Or.inr (mem_drainedBy h)
 
 /-- **No panic but the buffer.**  Whole histories under the application-level hypotheses. -/
-theorem runB_no_panic {objSize : Nat → Option Nat} {size : TypeId → Nat → Nat} (ht : TableOk objSize size) :
+theorem runB_no_panic {objSize : Nat → Option Nat} {size : TypeId → Nat → Nat} (ht : TableOk objSize size)
+    (ref : Bool) :
     ∀ (evs : List (EvB Tw.Snap.Snap (List Item))) (y : SysB Tw.Snap.Snap), InvB size y →
       (∀ e, e ∈ evs → EvOk size e) →
-      (∃ r, SysB.run (execOps objSize) execBuild y evs = .ok r) ∨
-      ((∃ s, SysB.run (execOps objSize) execBuild y evs = .panic s) ∧ Oversize objSize) := by
+      (∃ r, SysB.run (execOps objSize ref) execBuild y evs = .ok r) ∨
+      ((∃ s, SysB.run (execOps objSize ref) execBuild y evs = .panic s) ∧ Oversize objSize) := by
   intro evs
   induction evs with
   | nil => intro y _ _; exact Or.inl ⟨_, rfl⟩
   | cons e rest ih =>
     intro y hinv hev
-    rcases stepB_no_panic ht hinv e (hev e List.mem_cons_self) with ⟨y', o, hs, hinv'⟩ | ⟨⟨s, hp⟩, hover⟩
+    rcases stepB_no_panic ht ref hinv e (hev e List.mem_cons_self) with ⟨y', o, hs, hinv'⟩ | ⟨⟨s, hp⟩, hover⟩
     · rcases ih y' hinv' (fun e' he' => hev e' (List.mem_cons_of_mem _ he')) with ⟨⟨y'', os⟩, hr⟩ | ⟨⟨s, hp⟩, hover⟩
       · exact Or.inl ⟨(y'', o :: os), by simp only [SysB.run, hs, hr]⟩
       · exact Or.inr ⟨⟨s, by simp only [SysB.run, hs, hp]⟩, hover⟩
     · exact Or.inr ⟨⟨s, by simp only [SysB.run, hp]⟩, hover⟩
+
+/-! ### the laws of the protocol layer for the executable snapshot layer, on builder-made snapshots -/
+
+theorem execOps_lawsOn {objSize : Nat → Option Nat} {size : TypeId → Nat → Nat} (ht : TableOk objSize size)
+    (ref : Bool) : LawsOn (execOps objSize ref) (Built size) where
+  empty := built_empty size
+  apply_create := by
+    intro a b d ⟨ba, ha0, has⟩ ⟨bb, hb0, hbs⟩ h
+    have hai := (chain_inv_new ha0).1
+    have hbi := (chain_inv_new hb0).1
+    subst has hbs
+    have hd : createDelta ba.snap.raw bb.snap.raw = some d := h
+    have hag : SizesAgree ba.snap.raw bb.snap.raw := by
+      by_contra hn
+      rw [(createDelta_eq_none_iff _ _).mpr hn] at hd
+      cases hd
+    obtain ⟨d', hd', hap⟩ := applyDelta_createDelta hai.ok.raw_wf hbi.ok.raw_wf hag
+    rw [hd] at hd'
+    injection hd' with hd'
+    subst hd'
+    have hrw : ba.snap.readWithDelta d = .ok (bb.snap, []) := by
+      unfold Tw.Snap.Snap.readWithDelta
+      rw [hap]
+      simp only [buildFromRaw_of_extOk hbi.ok, List.append_nil]
+    simp [execOps, hrw, resName, Except.map]
+  read_write := by
+    intro a b d bs ⟨ba, ha0, has⟩ ⟨bb, hb0, hbs⟩ hc hw
+    have hai := (chain_inv_new ha0).1
+    obtain ⟨hbi, hbsz⟩ := chain_inv_new hb0
+    subst has hbs
+    have hd : createDelta ba.snap.raw bb.snap.raw = some d := hc
+    have hwf := createDelta_WF hai.ok.raw_wf hbi.ok.raw_wf hd
+    have hsz : SizesOk objSize d.updated := sizesOk_of_lens objSize hwf.2 (sizesOk_of_sized ht hbsz)
+    obtain ⟨xs, hxs, hr⟩ := readDelta_writeInts true objSize hwf.1 hsz
+    simp only [execOps, hxs] at hw
+    split at hw
+    · cases hw
+    · injection hw with hw
+      subst hw
+      simp only [enc, if_true] at hr
+      simp [execOps, hr, resName, Except.map]
+  write_nonempty := by
+    intro a b d bs _ _ _ hw
+    simp only [execOps] at hw
+    cases hxs : d.writeInts objSize with
+    | none => simp [hxs] at hw
+    | some xs =>
+      simp only [hxs] at hw
+      split at hw
+      · cases hw
+      · injection hw with hw
+        subst hw
+        unfold Tw.Snap.Delta.writeInts at hxs
+        split at hxs
+        · cases hxs
+        · injection hxs with hxs
+          subst hxs
+          intro h
+          have h1 := congrArg List.length h
+          rw [packInts_cons] at h1
+          have := (Tw.Packer.writeInt_length ((d.deleted.length : Nat) : Int)).1
+          simp only [List.length_append, List.length_nil] at h1
+          omega
+  same_clear := by
+    intro a b ⟨ba, ha0, has⟩ _ h
+    have hai := (chain_inv_new ha0).1
+    subst has
+    have hab : ba.snap = b := by simpa [execOps] using h
+    subst hab
+    have hrw : ba.snap.readWithDelta Tw.Snap.Delta.empty = .ok (ba.snap, []) := by
+      unfold Tw.Snap.Snap.readWithDelta
+      have hwf := hai.ok.raw_wf
+      have hfind : ∀ p, p ∈ ba.snap.raw.items → mfind p.1 ba.snap.raw.items = some p.2 :=
+        fun p hp => mfind_of_mem hwf.1 hp
+      have href : RefDelta ba.snap.raw ba.snap.raw Tw.Snap.Delta.empty := by
+        refine ⟨?_, sorted_nil, ?_, ?_⟩
+        · symm
+          simp only [Tw.Snap.Delta.empty, List.map_eq_nil_iff, List.filter_eq_nil_iff]
+          intro p hp
+          simp [hfind p hp]
+        · intro p hp; simp [Tw.Snap.Delta.empty] at hp
+        · intro p hp _; exact hfind p hp
+      have hag : SizesAgree ba.snap.raw ba.snap.raw := by
+        intro p hp
+        rw [hfind p hp]
+        simp [lenAgree]
+      rw [applyDelta_of_refDelta hwf hwf hag href]
+      simp only [buildFromRaw_of_extOk hai.ok, List.append_nil]
+    simp [execOps, hrw, resName, Except.map]
+
+/-- the builder keeps `Built` when the application's items are acceptable -/
+theorem execBuild_keeps {size : TypeId → Nat → Nat} (e : EvB Tw.Snap.Snap (List Item)) (he : EvOk size e) :
+    BuildKeeps execBuild (Built size) e := by
+  cases e with
+  | sendItems t items =>
+    intro seed s ⟨b0, h0, hs0⟩ hb
+    obtain ⟨r, hr, hrc⟩ := build_ok h0 hs0 he
+    rw [hb] at hr
+    injection hr with hr
+    obtain ⟨c, hc, hcs⟩ := hrc s hr.symm
+    exact ⟨c, chain_trans h0 hc, hcs⟩
+  | other e =>
+    cases e with
+    | send t s => exact he.elim
+    | deliver i => trivial
+    | ack => trivial
+    | deliverAck j => trivial
+    | forgedAck v => trivial
+    | clientReset => trivial
 
 end Tw.SnapMgr
